@@ -123,8 +123,8 @@ CHECKS["C15"] = dict(
         "input bin (given exact axial sampling, decidable), no input bin is added twice, totals are conserved exactly up to the stated account of trimmed ranges, mashed views sit at the mean angle; "
         "overlap interpolation (zoom) conserves the total for covering output boxes, preserves uniform values and moves the centre of mass by at most half the box sizes; inverse_SSRB outputs are convex "
         "combinations of direct sinograms at the right axial position. The C01 known geometry class reappears as a negative witness and listed known finding. "
-        "Tie: real SSRB (both overloads), zoom_image/overlap_interpolate and inverse_SSRB on generated geometries and data against the exact model; histogram-then-SSRB = histogram-coarse oracle on the implementation.",
-   note=TB + "3-D zoom is modelled as three separable 1-D overlap interpolations; arc-correction and interpolate_projdata are not modelled.",
+        "zoom_viewgram's in-place overload equals the two-step one and the identity request is the identity; every bin of an inverse_SSRB sinogram is the stated convex combination. Tie: real SSRB (all three overloads, the Interfile-writing one read back), overlap_interpolate, every zoom_image variant (input first plane -2..2), zoom_viewgram/zoom_viewgrams on arc-corrected viewgrams, find_centre_of_gravity_in_mm, inverse_SSRB (all bins, random data, guards) and extend_segment (180, 360 degrees and other coverages) on generated geometries and data against the exact model; histogram-then-SSRB = histogram-coarse, conservation, centroid and uniformity oracles on the implementation. Three defects found this way were repaired in /repo.",
+   note=TB + "3-D zoom is modelled as three separable 1-D overlap interpolations; the link from the transcribed overlap loops to the specification is checked per operation by the driver, not proved; even TOF combine factors, non-cylindrical geometries and interpolate_projdata are not covered.",
    design="DESIGN.md §4 C15")
 CHECKS["C16"] = dict(
    technique="Lean 4 proofs over any ordered field (symmetry, linearity, non-negativity of the single-scatter formula), cache transparency, invalidation-table state machine for all setter histories, differential correspondence on the real ScatterSimulation",
